@@ -185,7 +185,9 @@ def run_case(chk, strategy, storage_kind, d, m, n, subset_kind):
                             sub.pop()
     # ---- sparse instance (a requested feature is missing from the instance) and a model that raises: never modify the instance
     if S:
-        xs = {k: v for k, v in x.items() if k != S[0]}
+        outside = [f for f in names if f not in S]
+        drop = {S[0]} | ({outside[-1]} if outside and rng.random() < 0.6 and outside[-1] != names[0] else set())
+        xs = {k: v for k, v in x.items() if k not in drop}     # lacks a requested feature and possibly one that is not requested
         snap = copy.deepcopy(xs)
         del seen_inputs[:]
         sparse_err = None
